@@ -4,6 +4,7 @@ package main
 
 import (
 	"fmt"
+	"hash/fnv"
 	"sort"
 	"strings"
 
@@ -432,7 +433,7 @@ func runHCLDec(rep *hv.Report, r *hv.Rng, input, text string, sh *specShape, ctx
 	full, _ := checkScopes(rep, r, "", input, ctx, R, func(c *hcl.EvalContext) string {
 		v, d := hcldec.Decode(f.Body, sh.spec, c)
 		return outcome(v, d, true)
-	})
+	}, nil)
 	resultHist(rep, "hcldec", full)
 }
 
@@ -456,6 +457,74 @@ func structure(body hcl.Body, spec hcldec.Spec, sb *strings.Builder, diags *[]st
 	}
 }
 
+// blockAttrsInfo computes baInfo for a body under spec (an ObjectSpec whose BlockAttrsSpec entries sit at
+// the top level, as genSpec builds them).
+func blockAttrsInfo(sb *hclsyntax.Body, spec hcldec.Spec, ctx *hcl.EvalContext, input string) *baInfo {
+	ba := &baInfo{free: map[string]bool{}}
+	types := map[string]bool{}
+	if os, ok := spec.(hcldec.ObjectSpec); ok {
+		for _, s := range os {
+			if a, ok := s.(*hcldec.BlockAttrsSpec); ok {
+				types[a.TypeName] = true
+			}
+		}
+	}
+	fv := newFV()
+	rest := *sb
+	rest.Blocks = nil
+	emptied := func(b *hclsyntax.Body) *hclsyntax.Body {
+		return &hclsyntax.Body{Attributes: hclsyntax.Attributes{}, SrcRange: b.SrcRange, EndRange: b.EndRange}
+	}
+	for _, blk := range sb.Blocks {
+		switch {
+		case types[blk.Type]:
+			freeOfBody(blk.Body, nil, fv, map[string]bool{})
+			nb := *blk
+			nb.Body = emptied(blk.Body)
+			rest.Blocks = append(rest.Blocks, &nb)
+		case blk.Type == "dynamic" && len(blk.Labels) == 1 && types[blk.Labels[0]]:
+			it := blk.Labels[0]
+			if a, ok := blk.Body.Attributes["iterator"]; ok {
+				if tr, d := hcl.AbsTraversalForExpr(a.Expr); !d.HasErrors() && len(tr) == 1 {
+					it = tr.RootName()
+				}
+			}
+			nb := *blk
+			inner := *blk.Body
+			inner.Blocks = nil
+			for _, cb := range blk.Body.Blocks {
+				if cb.Type == "content" {
+					freeOfBody(cb.Body, []string{it}, fv, map[string]bool{})
+					ncb := *cb
+					ncb.Body = emptied(cb.Body)
+					inner.Blocks = append(inner.Blocks, &ncb)
+				} else {
+					inner.Blocks = append(inner.Blocks, cb)
+				}
+			}
+			nb.Body = &inner
+			rest.Blocks = append(rest.Blocks, &nb)
+		default:
+			rest.Blocks = append(rest.Blocks, blk)
+		}
+	}
+	ba.free = fv.free
+	// the same oracle on the rest, silently, with its own perturbation stream
+	h := fnv.New64a()
+	h.Write([]byte(input))
+	r2 := hv.NewRng(h.Sum64(), 709)
+	func() {
+		defer func() { recover() }()
+		Rr := roots(dynblock.VariablesHCLDec(&rest, spec))
+		_, fails, _, _ := scopeFailures(r2, ctx, Rr, func(c *hcl.EvalContext) string {
+			v, d := hcldec.Decode(dynblock.Expand(&rest, c), spec, c)
+			return outcome(v, d, true)
+		})
+		ba.restClean = len(fails) == 0
+	}()
+	return ba
+}
+
 func runDyn(rep *hv.Report, r *hv.Rng, input, text string, sh *specShape, ctx *hcl.EvalContext, bg *bodyGen) {
 	f, pd := hclsyntax.ParseConfig([]byte(text), "c.hcl", hcl.InitialPos)
 	if pd.HasErrors() {
@@ -463,11 +532,17 @@ func runDyn(rep *hv.Report, r *hv.Rng, input, text string, sh *specShape, ctx *h
 		return
 	}
 	// Blocks decoded by BlockAttrsSpec are a known blind spot of the dynblock walkers
-	// (finding reported with C07); such cases get their own failure kinds.
-	pfx := ""
+	// (finding reported with C07). A failure gets the "blockattrs:" kind only when it is
+	// explained by exactly that (see baInfo): the presence of a BlockAttrsSpec alone decides nothing.
+	var ba *baInfo
 	if sh.hasAttrsBlock {
-		pfx = "blockattrs:"
 		rep.Hist("dynblock:spec-with-BlockAttrsSpec")
+		if sb, ok := f.Body.(*hclsyntax.Body); ok {
+			ba = blockAttrsInfo(sb, sh.spec, ctx, input)
+			if !ba.restClean {
+				rep.Hist("dynblock:blockattrs:rest-not-clean")
+			}
+		}
 	}
 	var R, RE map[string]bool
 	func() {
@@ -495,7 +570,7 @@ func runDyn(rep *hv.Report, r *hv.Rng, input, text string, sh *specShape, ctx *h
 				set  map[string]bool
 			}{{"VariablesHCLDec", R}, {"ExpandVariablesHCLDec", RE}} {
 				if w.set[it] && !fv.free[it] {
-					rep.Fail(hv.Failure{Kind: pfx + "bound-name-reported", Input: input,
+					rep.Fail(hv.Failure{Kind: "bound-name-reported", Input: input,
 						Detail: fmt.Sprintf("dynamic-block iterator %q has no occurrence outside its scope, yet %s reports it", it, w.name), Extra: map[string]string{"variable": it}})
 				}
 			}
@@ -507,25 +582,26 @@ func runDyn(rep *hv.Report, r *hv.Rng, input, text string, sh *specShape, ctx *h
 		}
 		for _, n := range hv.SortedKeys(R) {
 			if fv.binders[n] && !fv.free[n] {
-				rep.Fail(hv.Failure{Kind: pfx + "bound-name-reported", Input: input,
+				rep.Fail(hv.Failure{Kind: "bound-name-reported", Input: input,
 					Detail: fmt.Sprintf("%q is only ever bound by a for expression / template for directive, yet VariablesHCLDec reports it", n), Extra: map[string]string{"variable": n}})
 			}
 		}
 	}
 	// (1) Expand + Decode under the full set
-	full, _ := checkScopes(rep, r, pfx, input, ctx, R, func(c *hcl.EvalContext) string {
+	full, _ := checkScopes(rep, r, "", input, ctx, R, func(c *hcl.EvalContext) string {
 		v, d := hcldec.Decode(dynblock.Expand(f.Body, c), sh.spec, c)
 		return outcome(v, d, true)
-	})
+	}, ba)
 	resultHist(rep, "dynblock", full)
 	// (2) the block structure produced by Expand under the minimal set
-	st, _ := checkScopes(rep, r, pfx+"expand-", input, ctx, RE, func(c *hcl.EvalContext) string {
+	// (the block structure does not look inside BlockAttrsSpec blocks: nothing is explained by them here)
+	st, _ := checkScopes(rep, r, "expand-", input, ctx, RE, func(c *hcl.EvalContext) string {
 		var sb strings.Builder
 		var ds []string
 		structure(dynblock.Expand(f.Body, c), sh.spec, &sb, &ds)
 		sort.Strings(ds)
 		return sb.String() + "\n" + strings.Join(ds, "\n")
-	})
+	}, nil)
 	if strings.Contains(st, "\n1|") {
 		rep.Hist("dynblock:expand:error")
 	} else {
